@@ -56,11 +56,18 @@ var AcceptFailures, AcceptFailed int
 
 var errTooManyFiles = errors.New("accept4: too many open files")
 
+// ListenFails makes every listen call fail (address already in use); ListenFailed counts the failures.
+var ListenFails bool
+var ListenFailed int
+
+var errAddrInUse = errors.New("bind: address already in use")
+
 // Reset clears all simulated network state (once per run, inside the bubble).
 //
 //go:norace
 func Reset() {
 	AcceptFailures, AcceptFailed = 0, 0
+	ListenFails, ListenFailed = false, 0
 	listeners = nil
 	LastAccepted = nil
 	OnServerWrite, OnServerClose, OnServerRead = nil, nil, nil
@@ -79,6 +86,10 @@ func ListenTCP(network string, laddr *TCPAddr) (*TCPListener, error) {
 	a := ""
 	if laddr != nil {
 		a = laddr.String()
+	}
+	if ListenFails {
+		ListenFailed++
+		return nil, &OpError{Op: "listen", Net: "tcp", Err: errAddrInUse}
 	}
 	return listen(a), nil
 }
